@@ -23,6 +23,11 @@ RULE = ('Cases = generated scene (layered with 1-5 hits per measurement and VV h
 ASSUMPTIONS = ['message and flag are not compared for B2: the number of hits above the limit changes by design',
                'crashes of run() are left to C08']
 BUDGET = {'quick': 900, 'thorough': 12000}
+CORPUS = 'pipeline'
+
+
+def from_corpus(case):
+    return dict(case, redraw=[0.0, 1.0, 1000.0])
 WEIGHTS = {'layered': 8, 'exact_counts': 3, 'split_candidate': 2, 'merge_chain': 2, 'ref_window': 2}
 
 
